@@ -312,6 +312,7 @@ class Ctx:
             if leaves:
                 self.n = [int(k) for k in leaves[0].mesh.n]
         self.t1, self.t2 = {}, {}
+        self.ambiguous = False
         self.keys_exact = True
         self.scale = 0.0
         self.all_exact = True
@@ -330,14 +331,20 @@ class Ctx:
         if not same_exact(ex, x):
             self.keys_exact = False
         for a, b in zip(np.asarray(x).reshape(-1).tolist(), np.asarray(out).reshape(-1).tolist()):
-            self.t1[(fid, complex(a))] = complex(b)
+            k_ = (fid, complex(a))
+            if k_ in self.t1 and self.t1[k_] != complex(b):
+                self.ambiguous = True      # +0.0 and -0.0 (one rational) with different function values
+            self.t1[k_] = complex(b)
 
     def tab2(self, fid, x, y, exx, exy, out):
         if not (same_exact(exx, x) and same_exact(exy, y)):
             self.keys_exact = False
         xs, ys, os_ = np.broadcast_arrays(x, y, out)
         for a, b, c in zip(xs.reshape(-1).tolist(), ys.reshape(-1).tolist(), os_.reshape(-1).tolist()):
-            self.t2[(fid, complex(a), complex(b))] = complex(c)
+            k_ = (fid, complex(a), complex(b))
+            if k_ in self.t2 and self.t2[k_] != complex(c):
+                self.ambiguous = True
+            self.t2[k_] = complex(c)
 
 
 def lowprec_consts(e):
@@ -1799,7 +1806,9 @@ def run_case(c):
             rec["oracle"].append("valid-expression-rejected")
     # --- Gallina record
     coq = None
-    if ref is not None or st != "ok":
+    if ctx.ambiguous:
+        obs["signed_zero_table"] = True     # outside the rational model: oracle-only
+    elif ref is not None or st != "ok":
         if ref is not None:
             exact = ctx.all_exact and ctx.keys_exact
             tol = F(0) if exact else F(ctx.rel) * F(ctx.scale)
